@@ -8,7 +8,8 @@
 (* instant arises: bl = FALSE).  ttl() is judged by class: -1 none / absent / dead, 1 = has a remaining TTL.     *)
 (* Reads: get k -> value id or 0; ex k -> 0/1; ttl k; getb -> value of every key; keys -> the live keys; size.   *)
 (* Every concurrent read must be the Abs answer at its linearization point; the sequential read-back after all   *)
-(* threads joined (thread "main") is squeezed between its own Call and Ret, i.e. must equal the final map.       *)
+(* threads joined (thread "main") is squeezed between its own Call and Ret, i.e. must equal the final map - and    *)
+(* so must the second read-back after the store was closed and reopened (event Reopen).                            *)
 EXTENDS TraceBase, KvAbs
 
 CONSTANT NK
@@ -63,8 +64,12 @@ EvRet == /\ IsEv("Ret") /\ pend[Ev.t].st = "lin" /\ pend[Ev.t].op = Ev.op
          /\ Ev.rv = pend[Ev.t].rv /\ Ev.rvs = pend[Ev.t].rvs
          /\ pend' = [pend EXCEPT ![Ev.t] = Idle] /\ UNCHANGED m
 
+(* clean close + reopen by the main thread after everything joined: the map is untouched - whatever is read back   *)
+(* from the reopened store is judged against the map the concurrent phase's linearization produced                *)
+EvReopen == IsEv("Reopen") /\ (\A t \in Thr : pend[t].st = "idle") /\ UNCHANGED <<m, pend>>
+
 EvEnd == IsEv("End") /\ Ev.outcome = "done" /\ (\A t \in Thr : pend[t].st = "idle") /\ UNCHANGED <<m, pend>>
 
-Next == EvBegin \/ EvReset \/ EvCall \/ EvRet \/ EvEnd \/ \E t \in Thr : Lin(t)
+Next == EvBegin \/ EvReset \/ EvCall \/ EvRet \/ EvReopen \/ EvEnd \/ \E t \in Thr : Lin(t)
 Spec == Init /\ [][Next]_vars
 ===============================================================================
